@@ -29,6 +29,18 @@ pub fn literals() -> Vec<J> {
     v.push(J::Null); v.push(J::Bool(true)); v.push(J::Bool(false)); v.push(J::Arr(vec![])); v.push(J::Arr(vec![J::n("1")])); v.push(J::Obj(vec![]));
     v
 }
+/// Literals enumerated from the JSON number grammar: [-] int [. frac] [e [sign] digits] over small alphabets of each part,
+/// and numeric strings: prefix x digits x suffix. Classified by the exact reference; several hundred shapes.
+pub fn grammar_literals() -> Vec<J> {
+    let mut v: Vec<J> = Vec::new();
+    let ints = ["0", "1", "7", "10", "21000", "9007199254740992", "9007199254740993", "18446744073709551615", "18446744073709551616"];
+    let fracs = ["", ".0", ".00", ".5", ".50", ".000000000000001", ".0000000000000000000000000000001", ".999999999999999999999"];
+    let exps = ["", "e0", "E0", "e1", "e+1", "e-1", "e2", "E-2", "e17", "e22", "e23", "e77", "e78", "e-0", "e+00", "e-400", "e400"];
+    for neg in ["", "-"] { for i in ints { for f in fracs { for e in exps { if neg == "-" && !(i == "0" || i == "1" || i == "21000") { continue; } v.push(J::Num(format!("{neg}{i}{f}{e}"))); } } } }
+    let pre = ["", "0x", "0X", "+", "-", "+0x", "-0x", "0b", "0o", " ", "00", "0x0"]; let digs = ["0", "1", "10", "ff", "FF", "fF", "123456789", "18446744073709551616", "ffffffffffffffffffffffffffffffffffffffffffffffffffffffffffffffff", "10000000000000000000000000000000000000000000000000000000000000000"]; let suf = ["", " ", ".0", "e1", "_", "n", "\n", "h"];
+    for p in pre { for d in digs { for s in suf { v.push(J::Str(format!("{p}{d}{s}"))); } } }
+    v
+}
 pub fn slots() -> Vec<(Kind, bool, &'static str, usize)> { // (kind, with chain id, field, position in the signed RLP list)
     let mut v = vec![(Kind::Legacy, true, "nonce", 0), (Kind::Legacy, true, "gasPrice", 1), (Kind::Legacy, true, "gas", 2), (Kind::Legacy, true, "value", 4), (Kind::Legacy, true, "chainId", 6), (Kind::Legacy, false, "nonce", 0), (Kind::Legacy, false, "value", 4)];
     for (i, f) in ["chainId", "nonce", "gasPrice", "gas"].iter().enumerate() { v.push((Kind::Eip2930, true, f, i)); } v.push((Kind::Eip2930, true, "value", 5));
@@ -36,14 +48,15 @@ pub fn slots() -> Vec<(Kind, bool, &'static str, usize)> { // (kind, with chain 
     v
 }
 fn lit_shape(j: &J) -> String {
-    match j { J::Num(l) => format!("json-{}{}{}", if l.starts_with('-') { "negative-" } else { "" }, if l.contains(['.', 'e', 'E']) { "float" } else { "int" }, match refmodel::json::parse_number(l) { Some(refmodel::json::NumVal::Frac { .. }) => format!("-fraction{}", if serde_json::from_str::<f64>(l).map_or(false, |f| f.fract() == 0.0) { "-integral-as-f64" } else { "" }) /* the double the project's JSON parser (serde_json, default features) delivers for the literal */, Some(refmodel::json::NumVal::Int { mag, .. }) => format!("-bits<={}", [53usize, 64, 256, 1000].iter().find(|b| mag < Nat::pow2(**b)).unwrap()), _ => "-huge".into() }),
+    // a fraction is a fraction: its sign is not part of the class (a tiny negative fraction is delivered as -0.0)
+    match j { J::Num(l) => format!("json-{}{}{}", if l.starts_with('-') && !matches!(refmodel::json::parse_number(l), Some(refmodel::json::NumVal::Frac { .. })) { "negative-" } else { "" }, if l.contains(['.', 'e', 'E']) { "float" } else { "int" }, match refmodel::json::parse_number(l) { Some(refmodel::json::NumVal::Frac { .. }) => format!("-fraction{}", if serde_json::from_str::<f64>(l).map_or(false, |f| f.fract() == 0.0) { "-integral-as-f64" } else { "" }) /* the double the project's JSON parser (serde_json, default features) delivers for the literal */, Some(refmodel::json::NumVal::Int { mag, .. }) => format!("-bits<={}", [53usize, 64, 256, 1000].iter().find(|b| mag < Nat::pow2(**b)).unwrap()), _ => "-huge".into() }),
         J::Str(s) => format!("string-{}", if s.starts_with('-') { "negative" } else if s.starts_with("0x") { "0x" } else if s.bytes().all(|b| b.is_ascii_digit()) && !s.is_empty() { "decimal" } else { "other" }), o => format!("json-{}", o.kind_name()) }
 }
 pub fn run(ctx: &Ctx) {
-    let lits = literals(); let sl = slots(); let sig = Signer::Fixed(U256::from_u64(1), U256::from_u64(1), false);
+    let mut lits = literals(); for g in grammar_literals() { if !lits.contains(&g) { lits.push(g); } } let sl = slots(); let sig = Signer::Fixed(U256::from_u64(1), U256::from_u64(1), false);
     // equal integers must give byte-identical encodings across spellings: (slot, value) -> encoding
     let by_value: Mutex<HashMap<(usize, Nat), Vec<u8>>> = Mutex::new(HashMap::new());
-    ctx.sweep("numeric-literals", "every numeric field slot of every kind x the literal alphabet (JSON ints/floats/negatives/fractions, decimal/0x strings up to 2^300, malformed strings, wrong JSON kinds), one deviating field per document", (sl.len() * lits.len()) as u64, |i| {
+    ctx.sweep("numeric-literals", "every numeric field slot of every kind x the literal alphabet (hand-picked JSON ints/floats/negatives/fractions, decimal/0x strings up to 2^300, malformed strings, wrong JSON kinds, plus ~2 000 literals enumerated from the number grammar [-]int[.frac][e[sign]digits] and from prefix x digits x suffix for strings), one deviating field per document", (sl.len() * lits.len()) as u64, |i| {
         let (kind, wc, field, pos) = sl[i as usize / lits.len()]; let lit = &lits[i as usize % lits.len()];
         let tx = txjson::template(kind, wc); let mut f = txjson::tx_fields(&tx, Spell::Auto); txjson::set(&mut f, field, Some(lit.clone()));
         let text = J::Obj(f).reordered(i % 3).to_text();
@@ -57,7 +70,7 @@ pub fn run(ctx: &Ctx) {
         ctx.sample("numeric-literals", || replay.clone());
         { let mut t = tx.clone(); let v = match &class { Class::Accept(v) | Class::Unc(v) => Some(v.clone()), Class::Reject => None };
           if let Some(v) = &v { match (field, v) { ("chainId", c) => t.chain_id = c.clone(), ("nonce", Some(x)) => t.nonce = x.clone(), ("gasPrice", Some(x)) => t.gas_price = x.clone(), ("gas", Some(x)) => t.gas = x.clone(), ("value", Some(x)) => t.value = x.clone(), ("maxPriorityFeePerGas", Some(x)) => t.max_priority = x.clone(), ("maxFeePerGas", Some(x)) => t.max_fee = x.clone(), _ => {} } }
-          emit_tx(ctx, "numeric-literals", i, 1, &shape, &text, if v.is_some() { Some(&t) } else { None }, class.name(), &refmodel::secp::Curve::new()); }
+          emit_tx(ctx, "numeric-literals", i, 13, &shape, &text, if v.is_some() { Some(&t) } else { None }, class.name(), &refmodel::secp::Curve::new()); }
         match observe_tx(&text, &sig) {
             Err(p) => { ctx.eval(format!("{slot}:{shape}:panic")); ctx.panic_violation(format!("{P}:tx:{shape}:panic@{}", explore::panic_site(&p)), format!("{slot}: panics: {p}"), replay) }
             Ok(Err(e)) => { ctx.eval(format!("{slot}:{shape}:rejected")); if let Class::Accept(_) = class { ctx.violation(format!("{P}:tx:{shape}:rejected"), format!("a spelling the tool must read is rejected: {e}"), replay) } }
